@@ -392,8 +392,19 @@ def _strategy_u(shapes):
         uidx = [i - R if ng else i for i, ng in zip(uidx, neg)]
         kind = "diag_pdf" if diag else "pdf"
         kappa = draw(st.sampled_from([10.0, 100.0]))
+        new = draw(gen.measure_params(kind, k, D, kappa))
+        form = draw(st.sampled_from(["paired"] * 4 + ["broadcast_single", "repeated_index"]))
+        if form == "broadcast_single" and k >= 2:
+            # one replacement component written to several addressed components ("reset components 0, 3, 4 to the prior")
+            new = {kk: (np.asarray(v)[:1] if isinstance(v, np.ndarray) else v) for kk, v in new.items()}
+        elif form == "repeated_index" and k >= 1:
+            # an index occurs twice and both writes carry the same replacement component (unambiguous result)
+            uidx = uidx + [uidx[0]]
+            new = {kk: (np.concatenate([np.asarray(v), np.asarray(v)[:1]]) if isinstance(v, np.ndarray) else v) for kk, v in new.items()}
+        else:
+            form = "paired"
         return {"D": D, "R": R, "kind": kind, "uidx": uidx, "m": draw(gen.measure_params(kind, R, D, kappa)),
-                "new": draw(gen.measure_params(kind, k, D, kappa)), "x": draw(gen.arr((2, D), -2, 2))}
+                "new": new, "form": form, "x": draw(gen.arr((2, D), -2, 2))}
     return s()
 
 
@@ -618,6 +629,6 @@ SUBS = [
         lambda c: [f"fam={c['fam']}", f"kind={c['kind']}", f"op={c['op']}"] + _labels_idx(c["n"], c["idx"]),
         examples={"quick": 40, "thorough": 300}, shards={"quick": 6, "thorough": 10}, rule="n>=2 and idx != identity"),
     Sub("update", _pool_m, _strategy_u, _run_u, lambda c: c["R"] >= 2,
-        lambda c: [f"kind={c['kind']}", f"k={len(c['uidx'])}", "neg" if any(i < 0 for i in c["uidx"]) else "nonneg"],
+        lambda c: [f"kind={c['kind']}", f"k={len(c['uidx'])}", "neg" if any(i < 0 for i in c["uidx"]) else "nonneg", f"form={c.get('form', 'paired')}"],
         examples={"quick": 80, "thorough": 400}, shards={"quick": 4, "thorough": 8}, rule="R>=2"),
 ]
